@@ -8,6 +8,8 @@ plain data and carries its own array contents."""
 
 from collections import OrderedDict
 
+import itertools
+
 import numpy as np
 
 import funsor
@@ -148,11 +150,18 @@ def build(op, env, arrays=None):
 
         bshape = tuple(sz for _, sz in op["batch"])
         dim = sum(int(np.prod(sh)) if sh else 1 for _, sh in op["reals"])
-        A = np.array(op["mats"], dtype=np.float64).reshape(bshape + (dim, dim))
-        P = A @ np.swapaxes(A, -1, -2) + 0.5 * np.eye(dim)
-        L = np.linalg.cholesky(P)
-        loc = np.array(op["locs"], dtype=np.float64).reshape(bshape + (dim,))
-        white = (np.swapaxes(L, -1, -2) @ loc[..., None])[..., 0]
+        if op.get("rank") is not None:
+            # a square-root factor of the given rank (dim x rank), used as it is:
+            # rank < dim is a "conditional style" Gaussian, improper in dim - rank directions
+            rank = op["rank"]
+            L = np.array(op["mats"], dtype=np.float64).reshape(bshape + (dim, rank))
+            white = np.array(op["locs"], dtype=np.float64).reshape(bshape + (rank,))
+        else:
+            A = np.array(op["mats"], dtype=np.float64).reshape(bshape + (dim, dim))
+            P = A @ np.swapaxes(A, -1, -2) + 0.5 * np.eye(dim)
+            L = np.linalg.cholesky(P)
+            loc = np.array(op["locs"], dtype=np.float64).reshape(bshape + (dim,))
+            white = (np.swapaxes(L, -1, -2) @ loc[..., None])[..., 0]
         if arrays is not None:
             arrays[op["out"] + ".white_vec"] = white
             arrays[op["out"] + ".prec_sqrt"] = L
@@ -939,4 +948,45 @@ def corpus(r):
         if rec:
             g.emit({"op": "binary", "fn": "mul", "a": rec, "b": x})
     out.append((g.program, "tropical"))
+    # 6. marginals of Gaussians whose square-root factor is not square: every split of the real
+    #    inputs into marginalised / kept blocks with  dim(marginalised) <= rank
+    for _ in range(4):
+        g = Gen(r, family="log", max_event=0, real_vars=False)
+        reals = [[n, REALS[n]] for n in sorted(REALS)]
+        r.shuffle(reals)
+        reals = reals[: r.choice([2, 3])]
+        dims = {n: (int(np.prod(sh)) if sh else 1) for n, sh in reals}
+        dim = sum(dims.values())
+        rank = r.randint(1, dim + 1)
+        batch = [[n, g.sizes[n]] for n in r.sample(NAMES[:2], r.choice([0, 1]))]
+        nb_total = int(np.prod([sz for _, sz in batch])) if batch else 1
+        leaf = g.emit(
+            {
+                "op": "gaussian",
+                "batch": batch,
+                "reals": reals,
+                "rank": rank,
+                "mats": [round(r.gauss(0, 1), 3) for _ in range(nb_total * dim * rank)],
+                "locs": [round(r.gauss(0, 1), 3) for _ in range(nb_total * rank)],
+            }
+        )
+        if leaf:
+            names = [n for n, _ in reals]
+            for k in range(1, len(names) + 1):
+                for sub in itertools.combinations(names, k):
+                    if sum(dims[n] for n in sub) <= rank:
+                        g.emit({"op": "reduce_real", "fn": "logaddexp", "a": leaf, "vars": list(sub)})
+        out.append((g.program, "log"))
+    # 7. non-commutative arithmetic between tensors and Constants whose constant inputs the tensor has
+    for fam, fns in (("ring", ["sub"]), ("tropical", ["truediv", "sub"])):
+        g = Gen(r, family=fam, max_event=0, real_vars=False)
+        names = r.sample(NAMES[:3], 2)
+        t = T(g, names + r.sample([n for n in NAMES if n not in names], r.choice([0, 1])))
+        z = T(g, r.sample([n for n in NAMES if n not in names], r.choice([0, 1])))
+        c = g.emit({"op": "constant", "a": z, "const": [[n, g.sizes[n]] for n in names[: r.choice([1, 2])]]}) if z else None
+        if t and c:
+            for fn in fns:
+                g.emit({"op": "binary", "fn": fn, "a": t, "b": c})
+                g.emit({"op": "binary", "fn": fn, "a": c, "b": t})
+        out.append((g.program, fam))
     return [(p, f) for p, f in out if len(p) >= 2]
